@@ -99,7 +99,7 @@ func zzvInstall(cfg *telemetry.UploadConfig, cfgVersion string, x float64) {
 	vconfigstore.Hook = func(version string, env []string) (*telemetry.UploadConfig, string, error) {
 		return cfg, cfgVersion, nil
 	}
-	vrand.Next = func() [8]byte { return vrand.BytesForX(x) }
+	vrand.Next = vrand.Sequence(x)
 }
 
 // run executes the real uploader once.
